@@ -9,7 +9,11 @@ Correspondence (implementation vs Lean model XsVerif/Model/Lazy.lean, driver drv
     driver (chunks looked up statically, skip rule, root with depth cut, references last).
 Property evaluation on the real code (independent of Lean): lazy result == eager result, literally
 (errors with paths and order, decoded data, elements/text/namespaces); every difference must be explained by
-a listed finding with an exact rule, otherwise it is a failure.
+a listed finding of status `known` with an exact rule, otherwise it is a failure.
+
+Findings that were repaired in /repo have NO rule here (C06-F3 03cfe89, C06-F4 6d25df9, C06-F5 851aaad, C06-F6 32ac39b,
+the validation side of C06-F10 c3a1309): the model and the predictions describe the repaired behaviour and a
+recurrence is reported as a violation with the failing input.
 """
 from __future__ import annotations
 
@@ -37,10 +41,13 @@ TRUSTED = ['the event order delivered by ElementTree.iterparse (start-ns*, start
            'what is compared',
            'the abstract validator of the model is instantiated from error segments measured on the real eager run']
 ASSUMPTIONS = ['lazy depth 1 is claimed; depths 2 and 3 are explored and reported in the histogram only',
-               'compared up to spelling: namespace prefixes in error paths / messages / decoded keys, memory addresses in '
+               'compared up to spelling: namespace prefixes in error paths / messages, memory addresses in '
                'messages, and the order inside a block of dangling-IDREF errors (first-seen order of the ID table)',
                'decoded data: the lazily decoded skeleton with its placeholders filled by the streamed chunk values is '
-               'compared with the eager value; xmlns pseudo-attributes at the root of a separately decoded chunk are not compared',
+               'compared with the eager value (when equally named chunks are grouped under several keys the placeholders '
+               'cannot be aligned with the stream: then the shape of the skeleton and the multiset of chunk values are '
+               'compared); xmlns pseudo-attributes at the root of a separately decoded chunk are not compared; prefixes of '
+               'decoded names are compared (a difference is finding C06-F10)',
                'for documents with a chunk that is not governed by its static declaration (finding C06-F2) errors that depend '
                'on document-wide tables (ID/IDREF, identity constraints) are left out of the exact prediction',
                'text of elements above the lazy depth is not compared at their start event (documented as incomplete)',
@@ -164,8 +171,28 @@ IDENT = re.compile(r"duplicated value|not found for Xsd|missing key field")
 STATEFUL = re.compile(ID_TABLE.pattern + '|' + IDENT.pattern)   # errors that depend on document-wide tables
 
 
-def build_tables(eg: Eager, schema, static_of: dict) -> Optional[dict]:
+def chunk_errors_as(eg: Eager, elem, xsd_element) -> list:
+    """The errors the lazy driver collects for one depth-level element when it validates it against
+    `xsd_element` (schemas.py:1363-1384 as it is now): a validation context at level 1 on the document, the
+    element's OWN namespace declarations pushed (commit c3a1309; the declarations of deeper elements are pushed by
+    their parent groups as in any run), XsdElement.raw_decode.  The context is fresh: errors that depend on
+    document-wide tables (ID/IDREF, identity constraints) are not predicted by this function."""
+    from xmlschema.namespaces import NamespaceMapper
+    from xmlschema.validators.validation import ValidationContext
+    from xmlschema.validators.exceptions import XMLSchemaStopValidation
+    context = ValidationContext(source=eg.res, converter=NamespaceMapper(None, source=eg.res), level=1,
+                                check_identities=True, use_defaults=True)
+    context.converter.set_xmlns_context(elem, context.level)
+    try:
+        xsd_element.raw_decode(elem, 'lax', context)
+    except XMLSchemaStopValidation:
+        pass
+    return [canon_err(e) for e in context.errors]
+
+
+def build_tables(eg: Eager, schema, static_of: dict, created_of: Optional[dict] = None) -> Optional[dict]:
     """error segments / governing declarations of the eager run as tables for the model"""
+    created_of = created_of or {}
     n = len(eg.errors)
     # trailing reference errors of the root
     tail = n
@@ -203,8 +230,8 @@ def build_tables(eg: Eager, schema, static_of: dict) -> Optional[dict]:
         if p is not None and p in eg.gov:
             govs.append([did(eg.gov[p]), p, eg.child_index[nid], did(xe)])
     static = []
+    created = []
     alt_failed: list[int] = []
-    alt: dict[int, list] = {}
     table = list(eg.canon)
     seg_rows = [[d, o, s, idx] for (d, o, s), idx in segs.items()]
     nonlocal_chunks = []
@@ -212,34 +239,36 @@ def build_tables(eg: Eager, schema, static_of: dict) -> Optional[dict]:
         cid = c['id']
         s = static_of.get(cid)
         g = eg.gov.get(cid)
-        if s is None:
+        if s is None and cid not in created_of:
             if g is not None:
-                nonlocal_chunks.append(cid)
+                nonlocal_chunks.append(cid)     # the lazy driver skips the chunk, the eager run validated it
             continue
-        if s is g:
+        if s is not None and s is g:
             static.append([cid, did(s)])
             continue
+        # the lazy driver validates the chunk against another declaration than the eager run (the statically found
+        # one, or an element created for its xsi:type): its errors are measured with the driver's own call
         nonlocal_chunks.append(cid)
         aid = 10 ** 6 + cid + 1
         try:
-            alt_errs = [canon_err(e) for e in s.iter_errors(eg.elem[cid])]
-        except Exception as ex:   # noqa  (stand-alone validation of the chunk raised: its lazy errors cannot be predicted)
+            alt_errs = chunk_errors_as(eg, eg.elem[cid], s if s is not None else created_of[cid])
+        except Exception:   # noqa  (the real lazy run will raise as well: nothing to predict)
             alt_errs = []
             alt_failed.append(cid)
         idxs = []
         for a in alt_errs:
             table.append(a)
             idxs.append(len(table) - 1)
-        alt[cid] = idxs
         seg_rows.append([aid, cid, 0, idxs])
-        static.append([cid, aid])
-    return {'root': root_decl, 'segs': seg_rows, 'govs': govs, 'static': static, 'created': [],
+        (static if s is not None else created).append([cid, aid])
+    return {'root': root_decl, 'segs': seg_rows, 'govs': govs, 'static': static, 'created': created,
             'krefs': krefs, 'idrefs': idrefs, 'table': table, 'nonlocal': nonlocal_chunks, 'ktail': ktail,
             'alt_failed': alt_failed}
 
 
-def static_lookup(schema, eg: Eager) -> tuple[dict, bool]:
-    """what the lazy driver's `get_element(tag, '/root/*')` returns for every depth-1 element"""
+def static_lookup(schema, eg: Eager) -> tuple[dict, dict]:
+    """what the lazy driver's `get_element(tag, '/root/*')` returns for every depth-1 element, and the element it
+    creates for a depth-1 element without a match that carries xsi:type (schemas.py:1363-1366)"""
     from xmlschema.namespaces import NamespaceMapper
     namespaces = NamespaceMapper(None, source=eg.res).namespaces
     root = eg.res.root
@@ -249,14 +278,14 @@ def static_lookup(schema, eg: Eager) -> tuple[dict, bool]:
     except KeyError:
         sch = schema
     out = {}
-    xsi = False
+    created = {}
     for c in eg.tree['cs']:
         e = eg.elem[c['id']]
         xe = sch.get_element(e.tag, f'/{root.tag}/*', namespaces)
         out[c['id']] = xe
         if xe is None and ('{%s}type' % L.XSI) in e.attrib:
-            xsi = True
-    return out, xsi
+            created[c['id']] = schema.builders.create_element(e.tag, schema)
+    return out, created
 
 
 def lazy_errors(schema, xml: bytes, depth: int, n: int):
@@ -293,21 +322,16 @@ def stable_partition_prediction(eg: Eager, tb: dict) -> list[int]:
 
 
 def known_match(case: dict, detail: dict) -> Optional[str]:
-    """Exact rules of the listed findings (see notes/findings/C06.json)."""
+    """Exact rules of the listed findings of status `known` (see notes/findings/C06.json).  Repaired findings
+    (F3, F4, F5, F6, validation side of F10) have no rule: whatever looked like them is a failure."""
     kind = detail.get('kind')
     if kind == 'order':          # same multiset, same paths, order == the proved stable partition
         return 'C06-F1' if detail.get('observed') == detail.get('law') and not detail.get('nonlocal') else None
     if kind == 'lost':           # errors differ exactly as the lazy driver's static lookup predicts
         return 'C06-F2' if detail.get('observed') == detail.get('law') and detail.get('nonlocal') else None
-    if kind == 'path':           # path of a later-visited descendant of the owner instead of the owner
-        return 'C06-F3' if detail.get('descendant') else None
-    if kind == 'eager-nsmap':    # eager map == port of the pinned _parse loop, lazy map == XML reading
-        return 'C06-F4' if detail.get('eager_is_pinned_port') and detail.get('lazy_is_inscope') else None
-    if kind == 'keyerror':       # root with identity constraints and no depth-level element
-        return 'C06-F5' if detail.get('no_chunks') and detail.get('root_identities') else None
-    if kind == 'decode-refs':    # lazy decode errors == eager iter_errors errors; eager decode lacks only IDREF errors
-        if detail.get('only_idrefs'):
-            return 'C06-F6'
+    if kind == 'root-id':        # an xs:ID value of the root repeated below: which of the two is "duplicated" (order)
+        return 'C06-F1' if detail.get('root_id_repeated') and detail.get('same_multiset') and not detail.get('nonlocal') else None
+    if kind == 'decode-refs':    # two ID/identity tables: root skeleton vs streamed chunks
         return 'C06-F8' if detail.get('two_tables') else None
     if kind == 'iterfind-stream':  # named path deeper than the lazy depth on an incrementally delivered document
         return 'C06-F7' if (detail.get('subsequence') and detail.get('buffered_ok') and detail.get('deeper')) else None
@@ -315,6 +339,10 @@ def known_match(case: dict, detail: dict) -> Optional[str]:
         return 'C06-F9' if detail.get('only_identity') else None
     if kind == 'decode-holes':   # placeholders and streamed chunks misaligned only for non-XsdElement chunks
         return 'C06-F2' if detail.get('nonlocal') else None
+    if kind == 'decode-prefixes':  # chunk values equal up to the prefixes of names, only for chunks with own declarations
+        return 'C06-F10' if (detail.get('chunks_with_declarations') and detail.get('same_skeleton') and
+                             detail.get('equal_up_to_prefixes') and
+                             0 < detail.get('differing_values', 0) <= detail.get('chunks_with_declarations')) else None
     return None
 
 
@@ -346,13 +374,9 @@ def check_ns_iter(ctx: Ctx, spec, marked: bytes, reqs: list, pend: list, case_ba
     if lazy_ns != want:
         ctx.failure('in-scope namespaces of a lazy resource differ from the declarations in scope', case,
                     {'lazy': lazy_ns, 'xml-reading': want})
-    if {i: eager_ns[i] for i in lazy_ns} != lazy_ns:
-        detail = {'kind': 'eager-nsmap', 'eager': eager_ns, 'lazy': lazy_ns, 'lazy_is_inscope': lazy_ns == want}
-        pend.append(('ns-known', case, detail, eager_ns))
-    else:
-        pend.append(('ns', case, None, eager_ns))
+    # lazy maps == eager maps is decided in `compare` (with the model's reading when the driver is available)
     reqs.append({'op': 'ns', 'tree': tree})
-    pend[-1] = pend[-1] + (lazy_ns,)
+    pend.append(('ns', case, eager_ns, lazy_ns))
     ctx.count('nsdecl-below-root:%s' % has_inner_decl)
     # --- iter / iter_depth / iterfind
     tags = sorted({n['tag'] for _, _, _, n in flat})
@@ -464,16 +488,20 @@ def check_ns_iter(ctx: Ctx, spec, marked: bytes, reqs: list, pend: list, case_ba
 
 def check_validation(ctx: Ctx, spec, schema, xml: bytes, defects: list, reqs: list, pend: list, case_base: dict) -> None:
     eg = Eager(schema, xml)
-    static_of, xsi_unmatched = static_lookup(schema, eg)
-    tb = build_tables(eg, schema, static_of)
+    static_of, created_of = static_lookup(schema, eg)
+    tb = build_tables(eg, schema, static_of, created_of)
     depth_max = max(eg.depth.values())
     has_ident = bool(spec.root.idents)
     ctx.count('eager:%s' % ('valid' if not eg.errors else 'invalid'))
     for ck in {c for c, _ in eg.canon}:
         ctx.count('errkind:' + ck)
-    if tb is None or xsi_unmatched:
-        ctx.count('skipped:untabulated')
+    if created_of:
+        ctx.count('chunk-created-for-xsi-type', len(created_of))
+    if tb is not None and tb['alt_failed']:
+        ctx.count('nonlocal-chunk-unpredictable', len(tb['alt_failed']))
         tb = None
+    if tb is None:
+        ctx.count('skipped:untabulated')
     # An xs:ID value on the root that is repeated below: which of the two elements gets the "duplicated" error
     # depends on the processing order (root last when lazy) - part of C06-F1, evaluated on the multiset only.
     root_ids = {v for k, v in eg.res.root.attrib.items() if k in ('id',)}
@@ -482,6 +510,10 @@ def check_validation(ctx: Ctx, spec, schema, xml: bytes, defects: list, reqs: li
     nontrivial = depth_max >= 2 and (bool(eg.errors) or has_ident or bool(tb and tb['nonlocal']))
     if tb and tb['nonlocal']:
         ctx.count('nonlocal-chunks', len(tb['nonlocal']))
+    chunk_decl_type = sum(1 for c in eg.tree['cs'] if c['decls'] and any(
+        ('{%s}type' % L.XSI) in e.attrib for e in eg.elem[c['id']].iter()))
+    if chunk_decl_type:
+        ctx.count('chunk-own-xmlns-and-xsi-type-inside', chunk_decl_type)   # exercises schemas.py:1374-1376 (c3a1309)
     buffered_canon = None
     for nbytes in (BIG, 6):
         streaming = nbytes != BIG
@@ -489,16 +521,9 @@ def check_validation(ctx: Ctx, spec, schema, xml: bytes, defects: list, reqs: li
         ctx.case(case, nontrivial, 'api:iter_errors')
         try:
             lz = lazy_errors(schema, xml, 1, nbytes)
-        except KeyError as ex:
-            detail = {'kind': 'keyerror', 'no_chunks': not eg.tree['cs'], 'root_identities': has_ident, 'exc': repr(ex)}
-            fid = known_match(case, detail)
-            if fid:
-                ctx.known_hit(fid)
-            else:
-                ctx.failure('lazy validation raised KeyError', case, detail)
-            continue
-        except Exception as ex:  # noqa
-            ctx.failure('lazy validation raised', case, repr(ex))
+        except Exception as ex:  # noqa   (a KeyError here used to be finding C06-F5, fixed by 851aaad)
+            ctx.failure('lazy validation raised', case, {'exception': repr(ex), 'depth-1 elements': len(eg.tree['cs']),
+                                                         'root_identities': has_ident})
             continue
         lz_canon = canon_seq([c for _, c in lz])
         lz_paths = [p for p, _ in lz]
@@ -520,59 +545,33 @@ def check_validation(ctx: Ctx, spec, schema, xml: bytes, defects: list, reqs: li
             continue
         same_paths = same_seq and all(path_compatible(a, b, streaming) for a, b in zip(lz_paths, eg.paths))
         ctx.count('verdict-agree:%s' % (bool(lz) == bool(eg.errors)))
-        f10_prefixes = []
-        for c in eg.tree['cs']:
-            e = eg.elem[c['id']]
-            if c['decls'] and ('{%s}type' % L.XSI) in e.attrib:
-                from xmlschema.utils.etree import etree_getpath
-                f10_prefixes.append(norm_path(etree_getpath(e, eg.res.root, None, False, True)))
-        if tb is not None and tb['alt_failed']:
-            from xmlschema.utils.etree import etree_getpath
-            for cid in tb['alt_failed']:
-                f10_prefixes.append(norm_path(etree_getpath(eg.elem[cid], eg.res.root, None, False, True)))
-            ctx.count('nonlocal-chunk-unpredictable', len(tb['alt_failed']))
-        if f10_prefixes and not same_seq:
-            # C06-F10: declarations written on a depth-1 element are not in scope when it is validated lazily
-            def outside(path):
-                q = re.sub(r'\{[^}]*\}', '', norm_path(path) or '')
-                if streaming:
-                    q = strip_pos(q)
-                    return not any(q == strip_pos(re.sub(r'\{[^}]*\}', '', pf)) or
-                                   q.startswith(strip_pos(re.sub(r'\{[^}]*\}', '', pf)) + '/') for pf in f10_prefixes)
-                return not any(q == re.sub(r'\{[^}]*\}', '', pf) or q.startswith(re.sub(r'\{[^}]*\}', '', pf) + '/')
-                               for pf in f10_prefixes)
-            a = canon_seq([c for p, c in lz if outside(p)])
-            if tb is not None:
-                law0 = stable_partition_prediction(eg, tb)
-                b = [tb['table'][i] for i in law0 if i >= len(eg.errors) or outside(eg.paths[i])]
-                if tb['nonlocal']:
-                    a = [x for x in a if not STATEFUL.search(x[1])]
-                    b = [x for x in b if not STATEFUL.search(x[1])]
-            else:
-                b = canon_seq([c for p, c in zip(eg.paths, eg.canon) if outside(p)])
-            if sorted(a) == sorted(tuple(x) for x in b):
-                ctx.known_hit('C06-F2' if (tb is not None and tb['alt_failed']) else 'C06-F10')
-                ctx.count('chunk-decl-xsi-type')
-                continue
         if root_id_dup and not same_seq:
             ctx.count('root-id-duplicate')
-            if sorted(lz_canon) == sorted(eg.canon) and not (tb and tb['nonlocal']):
-                ctx.known_hit('C06-F1')
-                continue
-            if tb and tb['nonlocal']:
-                ctx.known_hit('C06-F2')
-                continue
-            ctx.failure('lazy validation reports other errors than full loading', case,
-                        {'eager': list(zip(eg.paths, eg.canon)), 'lazy': lz})
+            nonlocal_ = bool(tb and tb['nonlocal'])
+            if nonlocal_:
+                # with a non-Local chunk as well: the multiset differs as finding C06-F2 says, checked without the
+                # errors that depend on the ID table
+                law_ns = [x for x in canon_seq([tb['table'][i] for i in stable_partition_prediction(eg, tb)])
+                          if not STATEFUL.search(x[1])]
+                detail = {'kind': 'lost', 'observed': [x for x in lz_canon if not STATEFUL.search(x[1])], 'law': law_ns,
+                          'nonlocal': tb['nonlocal'], 'eager': eg.canon}
+            else:
+                detail = {'kind': 'root-id', 'root_id_repeated': True, 'same_multiset': sorted(lz_canon) == sorted(eg.canon),
+                          'nonlocal': [], 'eager': list(zip(eg.paths, eg.canon)), 'lazy': lz}
+            fid = known_match(case, detail)
+            if fid:
+                ctx.known_hit(fid)
+            else:
+                ctx.failure('lazy validation reports other errors than full loading', case, detail)
             continue
         if tb is not None:
             law = stable_partition_prediction(eg, tb)
             law_canon = canon_seq([tb['table'][i] for i in law])
             if tb['nonlocal']:
                 law_canon = [x for x in law_canon if not STATEFUL.search(x[1])]
-            if not streaming and not f10_prefixes and not root_id_dup:
+            if not streaming and not root_id_dup:
                 reqs.append({'op': 'lazyval', 'tree': eg.tree, 'k': 1, 'root': tb['root'], 'segs': tb['segs'],
-                             'govs': tb['govs'], 'static': tb['static'], 'created': [], 'krefs': tb['krefs'],
+                             'govs': tb['govs'], 'static': tb['static'], 'created': tb['created'], 'krefs': tb['krefs'],
                              'idrefs': tb['idrefs']})
                 pend.append(('lazyval', case, {'lazy': lz_canon, 'n_eager': len(eg.errors), 'table': tb['table'],
                                                'nonlocal': tb['nonlocal']}))
@@ -596,34 +595,50 @@ def check_validation(ctx: Ctx, spec, schema, xml: bytes, defects: list, reqs: li
                 fid = known_match(case, detail)
                 if fid:
                     ctx.known_hit(fid)
-                    if kind == 'lost' and sorted(lz_canon) == sorted(eg.canon):
-                        pass
                 else:
                     explained = False
                     ctx.failure('lazy validation reports other errors than full loading', case,
-                                {'eager': list(zip(eg.paths, eg.canon)), 'lazy': lz, 'predicted-by-order-law': law_canon})
-        if explained:
-            # paths: compare each lazy error with the eager error it corresponds to
-            if law is not None and law_canon == lz_canon and not tb['nonlocal'] and not tb.get('alt_failed'):
-                # equal (class, reason) pairs can hide a reordering: the order law says which eager error each
-                # lazy error corresponds to
+                                {'eager': list(zip(eg.paths, eg.canon)), 'lazy': lz, 'predicted-by-order-law': law_canon,
+                                 'depth-1 elements validated against another declaration than in the full run': tb['nonlocal'],
+                                 'depth-1 elements with own xmlns declarations': [c['id'] for c in eg.tree['cs'] if c['decls']]})
+        if explained and tb is not None and tb['nonlocal']:
+            # errors were lost or added inside the non-Local chunks (C06-F2, matched above): positions do not
+            # correspond; outside these chunks the errors must be the same with the same paths
+            if not streaming:
+                from xmlschema.utils.etree import etree_getpath
+                bare = lambda q: re.sub(r'\{[^}]*\}', '', norm_path(q) or '')  # noqa
+                pfx = [bare(etree_getpath(eg.elem[cid], eg.res.root, None, False, True)) for cid in tb['nonlocal']]
+                inside = lambda q: any(bare(q) == pf or bare(q).startswith(pf + '/') for pf in pfx)  # noqa
+                got = sorted((bare(q), c) for q, c in lz if not inside(q) and not STATEFUL.search(c[1]))
+                want = sorted((bare(eg.paths[i]), eg.canon[i]) for i, o in enumerate(eg.owner)
+                              if not any(eg.in_subtree(o, cid) for cid in tb['nonlocal'])
+                              and not STATEFUL.search(eg.canon[i][1]))
+                if got != want:
+                    ctx.failure('lazy validation reports an error at another path than full loading', case,
+                                {'outside the depth-1 elements': tb['nonlocal'], 'lazy': got, 'eager': want})
+        elif explained:
+            # paths: compare each lazy error with the eager error it corresponds to (the order law says which one);
+            # a different path used to be finding C06-F3 (fixed by 03cfe89): no rule, it is a failure
+            if law is not None and law_canon == lz_canon:
                 order = [i for i in law]
                 idblock = sorted(i for i in order if REF_ID.search(tb['table'][i][1]))
                 if order != list(range(len(eg.errors))) and same_seq and \
                         [i for i in order if i not in idblock] != [i for i in range(len(eg.errors)) if i not in idblock]:
+                    # equal (class, reason) sequences hide a reordering of equal errors
                     ctx.known_hit('C06-F1')
             else:
-                order = list(range(len(eg.errors))) if same_seq else law
+                order = list(range(len(eg.errors)))     # untabulated document with the same sequence
             for pos, idx in enumerate(order):
-                if idx >= len(eg.errors):
-                    continue        # error of an alternative (non-governing) declaration: no eager counterpart
-                if pos >= len(lz_paths):
+                if pos >= len(lz_paths) or idx >= len(eg.errors):
                     break
                 lp, ep = lz_paths[pos], eg.paths[idx]
                 if path_compatible(lp, ep, streaming):
                     continue
                 if root_id_dup and 'duplicated xs:ID' in eg.canon[idx][1]:
-                    ctx.known_hit('C06-F1')
+                    # the root (processed last when lazy) and a descendant carry the same xs:ID value
+                    fid = known_match(case, {'kind': 'root-id', 'root_id_repeated': True, 'same_multiset': True,
+                                             'nonlocal': []})
+                    ctx.known_hit(fid) if fid else None
                     continue
                 owner = eg.owner[idx]
                 desc_paths = set()
@@ -632,15 +647,12 @@ def check_validation(ctx: Ctx, spec, schema, xml: bytes, defects: list, reqs: li
                         from xmlschema.utils.etree import etree_getpath
                         desc_paths.add(etree_getpath(eg.elem[nid], eg.res.root, eg.errors[idx].namespaces, False, True))
                 desc_paths = {norm_path(x) for x in desc_paths}
-                lp = norm_path(lp)
-                ok = lp in desc_paths or (streaming and strip_pos(lp) in {strip_pos(x) for x in desc_paths})
-                detail = {'kind': 'path', 'descendant': ok, 'lazy_path': lp, 'eager_path': ep, 'error': eg.canon[idx]}
-                fid = known_match(case, detail)
-                if fid:
-                    ctx.known_hit(fid)
-                else:
-                    ctx.failure('lazy validation reports an error at another path than full loading', case, detail)
-                    break
+                lpn = norm_path(lp)
+                ok = lpn in desc_paths or (streaming and strip_pos(lpn) in {strip_pos(x) for x in desc_paths})
+                ctx.failure('lazy validation reports an error at another path than full loading', case,
+                            {'lazy_path': lp, 'eager_path': ep, 'error': eg.canon[idx],
+                             'lazy path is a descendant visited later (C06-F3, fixed by 03cfe89)': ok})
+                break
     # deeper lazy depths: explored, reported, never alarmed
     for d in (2, 3):
         try:
@@ -720,16 +732,9 @@ def check_decode(ctx: Ctx, spec, schema, xml: bytes, case_base: dict) -> None:
             ldata, lerrs = schema.decode(XMLResource(L.Slow(xml, 6), lazy=1, thin_lazy=thin), validation='lax')
             g = find_gen(ldata)
             items = list(g) if g is not None else []
-        except KeyError as ex:
-            detail = {'kind': 'keyerror', 'no_chunks': not eg.tree['cs'], 'root_identities': bool(spec.root.idents)}
-            fid = known_match(case, detail)
-            if fid:
-                ctx.known_hit(fid)
-            else:
-                ctx.failure('lazy decode raised KeyError', case, repr(ex))
-            continue
-        except Exception as ex:  # noqa
-            ctx.failure('lazy decode raised', case, repr(ex))
+        except Exception as ex:  # noqa   (a KeyError here used to be finding C06-F5, fixed by 851aaad)
+            ctx.failure('lazy decode raised', case, {'exception': repr(ex), 'depth-1 elements': len(eg.tree['cs']),
+                                                     'root_identities': bool(spec.root.idents)})
             continue
         stream = [x for x in items if not isinstance(x, XMLSchemaValidationError)]
         serrs = [x for x in items if isinstance(x, XMLSchemaValidationError)]
@@ -741,8 +746,8 @@ def check_decode(ctx: Ctx, spec, schema, xml: bytes, case_base: dict) -> None:
             want = {k: ([strip_xmlns(i) for i in v] if isinstance(v, list) else strip_xmlns(v)) for k, v in want.items()}
         ok = filled == want and not stream
         if not ok and isinstance(want, dict) and isinstance(ldata, dict):
-            # same-named children may be grouped under differently spelled keys: compare the shape of the skeleton
-            # and the multiset of chunk values
+            # same-named children may be grouped under differently spelled keys, then the placeholders cannot be
+            # aligned with the stream: compare the shape of the skeleton and the multiset of chunk values
             def shape(x):
                 if isinstance(x, types.GeneratorType):
                     return 'HOLE'
@@ -751,7 +756,7 @@ def check_decode(ctx: Ctx, spec, schema, xml: bytes, case_base: dict) -> None:
                 return x
             def unpre(k):
                 return re.sub(r'^[A-Za-z_][\w.-]*:', '', k)
-            def key_shape(dct, hole):
+            def key_shape(dct):
                 out = {}
                 for k, v in dct.items():
                     if k[:1] in '@$' or isinstance(k, int):
@@ -760,8 +765,8 @@ def check_decode(ctx: Ctx, spec, schema, xml: bytes, case_base: dict) -> None:
                         n = len(v) if isinstance(v, list) else 1
                         out[unpre(k)] = out.get(unpre(k), 0) + n
                 return out
-            lshape = key_shape({k: shape(v) for k, v in ldata.items()}, True)
-            eshape = key_shape(want, False)
+            lshape = key_shape({k: shape(v) for k, v in ldata.items()})
+            eshape = key_shape(want)
             def vals(dct):
                 r = []
                 for k, v in dct.items():
@@ -769,30 +774,32 @@ def check_decode(ctx: Ctx, spec, schema, xml: bytes, case_base: dict) -> None:
                         continue
                     r.extend(v if isinstance(v, list) else [v])
                 return r
-            def unprefix_all(x):
-                if isinstance(x, dict):
-                    return {(k if k.startswith('@xsi:') else re.sub(r'^(@?)[A-Za-z_][\w.-]*:', r'\1', k)): unprefix_all(v)
-                            for k, v in x.items() if not k.startswith('@xmlns')}
-                if isinstance(x, list):
-                    return [unprefix_all(v) for v in x]
-                return x
-            ms = sorted(repr(unprefix_all(strip_xmlns(v))) for v in stream0)
-            me = sorted(repr(unprefix_all(v)) for v in vals(want))
-            if lshape == eshape and ms == me:
+            ms = [strip_xmlns(v) for v in stream0]
+            me = list(vals(want))
+            rest_l = list(ms)
+            rest_e = []
+            for v in me:
+                if v in rest_l:
+                    rest_l.remove(v)
+                else:
+                    rest_e.append(v)
+            if lshape == eshape and not rest_l and not rest_e:
                 ok = True
                 ctx.count('decode:same-up-to-grouping')
-        if not ok and not stream and any(c['decls'] for c in eg.tree['cs']):
-            def unprefix(x):
-                if isinstance(x, dict):
-                    return {re.sub(r'^(@?)[A-Za-z_][\w.-]*:(?!type)', r'\1', k) if not k.startswith('@xmlns') and not k.startswith('@xsi:') else k: unprefix(v)
-                            for k, v in x.items()}
-                if isinstance(x, list):
-                    return [unprefix(v) for v in x]
-                return x
-            if unprefix(filled) == unprefix(want):
-                ctx.known_hit('C06-F10')
-                ctx.count('decode:prefix-spelling')
-                continue
+            elif len(ms) == len(me):
+                # C06-F10 (what remains of it): a depth-1 element with its own namespace declarations is decoded at
+                # level 0 of the chunk decoder, its names are spelled with other prefixes than in the full result
+                n_decl = sum(1 for c in eg.tree['cs'] if c['decls'])
+                detail = {'kind': 'decode-prefixes', 'chunks_with_declarations': n_decl, 'same_skeleton': lshape == eshape,
+                          'differing_values': len(rest_l),
+                          'equal_up_to_prefixes': len(rest_l) == len(rest_e) and
+                          sorted(repr(_unprefix(v)) for v in rest_l) == sorted(repr(_unprefix(v)) for v in rest_e),
+                          'lazy-only chunk values': repr(rest_l)[:800], 'eager-only chunk values': repr(rest_e)[:800]}
+                fid = known_match(case, detail)
+                if fid:
+                    ctx.known_hit(fid)
+                    ctx.count('decode:prefix-spelling')
+                    ok = True
         ctx.count('decode:%s' % ('same' if ok else 'differs'))
         if not ok:
             # every depth-1 element that IS governed by its static declaration must still be streamed with its value
@@ -826,8 +833,8 @@ def check_decode(ctx: Ctx, spec, schema, xml: bytes, case_base: dict) -> None:
         le = sorted(canon_err(e) for e in list(lerrs) + serrs)
         ee = sorted(canon_err(e) for e in eerrs)
         if le != ee and not nonlocal_chunks:
-            # C06-F6: the eager decoder never runs _validate_references (dangling IDREFs are reported by
-            # iter_errors and by the lazy decoder only)
+            # (the eager decoder not running _validate_references was finding C06-F6, fixed by 32ac39b: no rule)
+            # C06-F8: the lazy decoder keeps two ID / identity tables (root skeleton vs streamed chunks)
             extra = list(le)
             for x in ee:
                 if x in extra:
@@ -836,7 +843,8 @@ def check_decode(ctx: Ctx, spec, schema, xml: bytes, case_base: dict) -> None:
             root_has_idattr = any(k in ('id', 'rf') for k in eg.res.root.attrib)
             non_ref = lambda l: [x for x in l if not (ID_TABLE.search(x[1]) or IDENT.search(x[1]))]  # noqa
             detail = {'kind': 'decode-refs', 'lazy': le, 'eager-decode': ee, 'eager-iter_errors': full,
-                      'only_idrefs': bool(extra) and all(REF_ID.search(x[1]) for x in extra) and le == full,
+                      'eager decode lacks only IDREF errors (C06-F6, fixed by 32ac39b)':
+                          bool(extra) and all(REF_ID.search(x[1]) for x in extra) and le == full,
                       'two_tables': (root_has_idattr or bool(spec.root.idents)) and non_ref(le) == non_ref(ee) == non_ref(full)}
             fid = known_match(case, detail)
             if fid:
@@ -849,34 +857,25 @@ def compare(ctx: Ctx, reqs: list, pend: list, drv: Optional[Driver]) -> None:
     answers = drv.query(reqs) if drv is not None else [None] * len(reqs)
     for p, m in zip(pend, answers):
         kind, case = p[0], p[1]
-        if kind in ('ns', 'ns-known'):
-            detail, eager_ns, lazy_ns = p[2], p[3], p[4]
+        if kind == 'ns':
+            eager_ns, lazy_ns = p[2], p[3]
+            differs = {i: eager_ns.get(i) for i in lazy_ns} != lazy_ns
+            detail = {'eager': eager_ns, 'lazy': lazy_ns} if differs else None
             if m is not None:
                 ctx.traces += 1
                 if 'err' in m:
                     ctx.mismatch('driver error', case, None, m)
-                    continue
-                as_dict = lambda rows: {r[0]: dict(r[1]) for r in rows} if isinstance(rows, list) else rows  # noqa
-                if as_dict(m['lazy']) != lazy_ns:
-                    ctx.mismatch('lazy loader namespace maps', case, lazy_ns, m['lazy'])
-                pinned, repaired = as_dict(m['eager_pinned']), as_dict(m['inscope'])
-                if eager_ns != pinned and eager_ns != repaired:
-                    ctx.mismatch('eager loader namespace maps (neither the pinned nor the repaired loop)', case,
-                                 eager_ns, m['eager_pinned'])
-                if m.get('eager_safe') and eager_ns != repaired:
-                    ctx.mismatch('eager loader deviates on a document that satisfies the guard of eager_nsmaps_partial',
-                                 case, eager_ns, m['inscope'])
-                ctx.count('eagerSafe:%s' % m.get('eager_safe'))
-                if kind == 'ns-known':
-                    detail['eager_is_pinned_port'] = eager_ns == pinned
-            elif kind == 'ns-known':
-                detail['eager_is_pinned_port'] = True     # Lean unavailable: decided on the XML reading alone
-            if kind == 'ns-known':
-                fid = known_match(case, detail)
-                if fid:
-                    ctx.known_hit(fid)
                 else:
-                    ctx.failure('in-scope namespaces of the lazy resource differ from those of the loaded tree', case, detail)
+                    as_dict = lambda rows: {r[0]: dict(r[1]) for r in rows} if isinstance(rows, list) else rows  # noqa
+                    if as_dict(m['lazy']) != lazy_ns:
+                        ctx.mismatch('lazy loader namespace maps', case, lazy_ns, m['lazy'])
+                    if as_dict(m['eager']) != eager_ns:
+                        ctx.mismatch('eager loader namespace maps', case, eager_ns, m['eager'])
+                    if differs:
+                        detail['eager maps are those of the loop without a pop in its end branch (C06-F4, fixed by 6d25df9)'] = \
+                            as_dict(m['eager_unpopped']) == eager_ns
+            if differs:
+                ctx.failure('in-scope namespaces of the loaded tree differ from those of the lazy resource', case, detail)
             continue
         if m is None:
             continue
